@@ -22,7 +22,8 @@ RULE = ('random data sets (1-3 categorical covariates, <= 8 strata, positivity b
         'configuration cells enumerated: IPTW stabilized x standardize x {no missing, missing ignored, missing_model} '
         'x {saturated, main-effects} models, plus a stabilized effect-modifier MSM (normal outcome); StochasticIPTW marginal/conditional plans; TimeFixedGFormula standardize x '
         "treatment ('all','none',custom) x predict_missing x outcome type; SurvivalGFormula all/none/natural/custom; "
-        'AIPTW x missing handling; GEstimationSNM (1- and 2-parameter SNM, closed solver) x missing handling; '
+        'AIPTW x missing handling; GEstimationSNM (1- and 2-parameter SNM, closed solver; 1-parameter with the '
+        "Nelder-Mead solver) x missing handling; TimeFixedGFormula also through fit_stochastic with deterministic plans; "
         'GTransportFormula generalize/transport x outcome type; two thirds of the cells run on an object with a '
         'history (an earlier fit() with the same or another marginal structural model / plan, then the fit that is '
         'compared), one third on a fresh object.  distinct = (data seed, estimator, options); '
@@ -35,10 +36,17 @@ ASSUMPTIONS = ['statsmodels GLM with freq_weights and the unweighted GLM on the 
                'their log ratio / log odds ratio',
                'SurvivalGFormula: the weights column is constant within an individual (person-level frequency weights); '
                'replication repeats individuals under fresh ids',
-               'TimeFixedGFormula.fit_stochastic and the Nelder-Mead solver of GEstimationSNM are outside the check '
-               '(random treatment draws with p proportional to the weights / derivative-free search to a tolerance)']
+               'TimeFixedGFormula.fit_stochastic is run with deterministic plans only (probabilities exactly 1 / 0, also '
+               'conditional [1, 0]): with 0 < p < 1 it draws the treated with probability proportional to the weights, '
+               'which is not a frequency-weight semantics and has no replicated-data counterpart',
+               "GEstimationSNM solver='search' (Nelder-Mead on |alpha|) is compared at 1e-4: both runs stop within the "
+               'solver tolerance of the common root']
 
 DTOL = dict(rtol=1e-7, atol=1e-9)       # weighted vs replicated run: two separate IRLS runs on identical score equations
+# solver='search': both runs minimise the same objective (identical up to IRLS noise) by Nelder-Mead to its tolerance;
+# the simplex stops within ~1e-5 of the common root (measured 1e-7..1e-6 between the two runs); a dropped weight
+# moves psi by 1e-2..1e-1
+STOL = dict(rtol=1e-4, atol=1e-4)
 NTOL = dict(rtol=0, atol=1e-8)          # fitted values of the two runs, row for row
 KTOL = dict(rtol=1e-9, atol=1e-11)      # exact model on the implementation's own fitted values vs reported estimate
 
@@ -202,15 +210,27 @@ def est_gformula(df, covs, wcol, o):
     g.outcome_model(om, print_results=False)
     if o.get('hist'):     # the documented use: one object, several plans in a row
         g.fit('none' if o['treatment'] == 'all' else 'all', predict_missing=not o['pm'])
-    g.fit(o['treatment'], predict_missing=o['pm'])
+    if o.get('stoch'):
+        # the stochastic entry point with a deterministic plan (probabilities exactly 1 / 0): the same intervention as
+        # fit(treatment), so every exact identity of fit() applies to fit_stochastic() as well
+        if o['treatment'] in ('all', 'none'):
+            g.fit_stochastic(p=1.0 if o['treatment'] == 'all' else 0.0, samples=2, predict_missing=o['pm'], seed=0)
+        else:
+            cond = o['treatment']
+            g.fit_stochastic(p=[1.0, 0.0], conditional=[cond, cond.replace('==', '!=')], samples=2,
+                             predict_missing=o['pm'], seed=0)
+    else:
+        g.fit(o['treatment'], predict_missing=o['pm'])
     n, pos = len(df), positions(df, g.gf['index'])
     # predictions under the plan for every retained row (predict_missing=False blanks some in predicted_df)
     gp = g.gf.copy()
     gp['A'] = 1 if o['treatment'] == 'all' else 0 if o['treatment'] == 'none' else \
         np.where(eval(o['treatment'], {'g': gp, 'np': np}), 1, 0)
     q = np.asarray(g._outcome_model.predict(gp), dtype=float)
-    shown = np.asarray(g.predicted_df['Y'], dtype=float)
-    return {'marginal': float(g.marginal_outcome)}, {'q': full(n, pos, q), 'shown': full(n, pos, shown)}, None
+    nu = {'q': full(n, pos, q)}
+    if g.predicted_df is not None:      # fit_stochastic publishes no per-row predictions
+        nu['shown'] = full(n, pos, np.asarray(g.predicted_df['Y'], dtype=float))
+    return {'marginal': float(g.marginal_outcome)}, nu, None
 
 
 def est_aiptw(df, covs, wcol, o):
@@ -248,7 +268,7 @@ def est_snm(df, covs, wcol, o):
         s.missing_model(om, stabilized=o['stab'], print_results=False)
     if o.get('hist'):
         s.fit(solver='closed')
-    s.fit(solver='closed')
+    s.fit(solver=o.get('solver', 'closed'))
     n, pos = len(df), positions(df, s.df['index'])
     ipmw = np.ones(len(s.df)) if s.ipmw is None else np.asarray(s.ipmw, dtype=float)
     # reference treatment fit with the documented arguments: observed-outcome rows, freq_weights = ipmw x user weight
@@ -420,7 +440,8 @@ def _compare(chk, drv, which, o, df, covs, rep, first, case):
     ew, nw, aux = run(df, covs, 'w', o)
     er, nr, _ = run(rep, covs, None, o)
     case['weighted'], case['replicated'] = ew, er
-    ok = set(ew) == set(er) and all(close(ew[k], er[k], **DTOL) for k in ew)
+    dtol = STOL if o.get('solver') == 'search' else DTOL
+    ok = set(ew) == set(er) and all(close(ew[k], er[k], **dtol) for k in ew)
     chk.d(ok, '%s: weights column vs physically replicated rows give the same point estimates' % which, case)
     # K, nuisance layer: the fitted values of the weighted run are those of the replicated run, row for row
     good = True
@@ -434,7 +455,8 @@ def _compare(chk, drv, which, o, df, covs, rep, first, case):
     # model(replicated) exactly
     if drv is not None and o.get('msm') != 'modifier':      # the modifier MSM is a regression, not an arm mean
         me, same, small = model_case(drv, which, df, covs, o, nw, aux)
-        ok = me is not None and set(me) == set(ew) and all(close(float(me[k]), ew[k], **KTOL) for k in ew)
+        ktol = dict(rtol=1e-3, atol=1e-3) if o.get('solver') == 'search' else KTOL     # search: approximate root
+        ok = me is not None and set(me) == set(ew) and all(close(float(me[k]), ew[k], **ktol) for k in ew)
         chk.k(ok, '%s: exact model on the fitted values = reported point estimates' % which, dict(case, model=small))
         chk.k(bool(same), '%s: model on (rows, weights) == model on replicated rows, exactly' % which,
               dict(case, model=small))
@@ -463,6 +485,8 @@ def cells(which, ytype, missing, covs, rng, tier):
             for tr in trts:
                 for pm in ((True, False) if missing else (True,)):
                     out.append(dict(tgt=tgt, treatment=tr, pm=pm, spec=spec(), ytype=ytype))
+                    if rng.integers(0, 2):      # the stochastic entry point, deterministic plan (p = 1 / 0 / [1, 0])
+                        out[-1]['stoch'] = True
     elif which == 'AIPTW':
         for mm in miss_modes:
             out.append(dict(miss=mm, spec=spec(), ytype=ytype))
@@ -471,6 +495,10 @@ def cells(which, ytype, missing, covs, rng, tier):
             for mm in miss_modes:
                 for stab in ((True, False) if mm == 'mm' else (True,)):
                     out.append(dict(snm=snm, miss=mm, stab=stab, spec=spec(), ytype=ytype))
+        # the Nelder-Mead solver (refits the weighted treatment model at every psi): every data set in the thorough
+        # tier, one in three in the quick tier (each search costs ~150 GLM fits)
+        if tier == 'thorough' or rng.integers(0, 3) == 0:
+            out.append(dict(snm='A', miss=miss_modes[-1], stab=True, spec=spec(), ytype=ytype, solver='search'))
     elif which == 'GTransportFormula':
         for g in (True, False):
             out.append(dict(gen=g, spec=spec(), ytype=ytype))
@@ -507,7 +535,7 @@ def one_dataset(chk, drv, rng, ytype, missing, tier, which_list):
             key = (seed, which, tuple(sorted((k, str(v)) for k, v in o.items())))
             chk.case(case, key if nontriv else None, sample=case if chk.evals % 41 == 0 else None)
             chk.count('%s/%s/%s' % (which, ytype, '/'.join('%s=%s' % (k, v) for k, v in sorted(o.items())
-                                                             if k in ('stab', 'tgt', 'miss', 'pm', 'plan', 'snm', 'gen', 'msm', 'hist'))))
+                                                             if k in ('stab', 'tgt', 'miss', 'pm', 'plan', 'snm', 'gen', 'msm', 'hist', 'stoch', 'solver'))))
             compare(chk, drv, which, o, df, covs, rep, first, case)
 
 
